@@ -325,6 +325,62 @@ def r5_resample(idx, r):
     r.require(bool(fb.iteration_ends()) and all(s.get("out") == (1, 1) for s in fb.iteration_ends()), "one-output-per-interval", f, msg="exactly one output value per output interval")
 
 
+def r6_targets_and_sizes(idx, r):
+    """(a) The homogenised block that re-meshing stacks is a hexagon of the source block's CURRENT pitch (getPitch() asks the pitch-defining
+    component now; a remembered value or a cold dimension gives a different volume at the same densities - atoms are lost or gained).
+    (b) The table of material anchors pairs 'bottom' with the lowest value of the bottoms and 'top' with the highest value of the tops.
+    (c) A core axial mesh used as the target of re-meshing was refreshed (updateAxialMesh) earlier in the same function, on every path."""
+    f = idx.method("armi.reactor.blocks.HexBlock", "createHomogenizedCopy")
+    hx = next((c for c in iter_calls(f.node) if dotted(c.func) == "Hexagon"), None)
+    if hx is None:
+        raise AnchorMissing("HexBlock.createHomogenizedCopy: Hexagon(...)")
+    op = propagate(get_arg(hx, 4, "op"), single_assign_env(f.node))
+    r.require(norm(op) == "self.getPitch()", "homogenized-copy:current-pitch", f, node=hx,
+              msg=f"the homogenised hexagon is sized with `{norm(op)}`; it must be self.getPitch() (the pitch-defining component's present, hot dimension) or the copy holds "
+                  "the same densities in another volume")
+    ti, th = get_arg(hx, 2, "Tinput"), get_arg(hx, 3, "Thot")
+    r.require(ti is not None and th is not None and norm(ti) == norm(th), "homogenized-copy:no-expansion-of-the-copy", f, node=hx, msg="input and hot temperature of the copy are equal, so the given pitch is its actual size")
+    g = idx.method(UM + ".UniformMeshGenerator", "_getFilteredMeshTopAndBottom")
+    tab = next((n.iter for n in walk_local(g.node) if isinstance(n, ast.For) and isinstance(n.iter, (ast.List, ast.Tuple)) and all(isinstance(e, ast.Tuple) and len(e.elts) == 4 for e in n.iter.elts)), None)
+    if tab is None or len(tab.elts) != 2:
+        raise AnchorMissing("_getFilteredMeshTopAndBottom: table of (anchors, preference, getter, extreme)")
+    getters = {x.name: x for x in g.node.body if isinstance(x, ast.FunctionDef)}
+    for row in tab.elts:
+        lst, pref, getter, ext = row.elts
+        pv = pref.value if isinstance(pref, ast.Constant) else None
+        want = {"bottom": ("min", "zbottom"), "top": ("max", "ztop")}.get(pv)
+        if want is None or norm(getter) not in getters:
+            raise AnalysisError(f"_getFilteredMeshTopAndBottom: row `{norm(row)}` not understood")
+        r.require(norm(ext) == want[0], f"anchor-table:{pv}:extreme", g, node=row,
+                  msg=f"the default anchor of the {pv}s is `{norm(ext)}` of the material {pv}s; it must be {want[0]} (the {'lowest' if pv == 'bottom' else 'highest'} one is kept, the others within "
+                      "the minimum mesh size are dropped) - otherwise the outermost fuel boundary disappears from the common mesh")
+        r.require(want[1] in norm(getters[norm(getter)]), f"anchor-table:{pv}:getter", g, node=row, msg=f"the {pv} row reads block {want[1]}")
+    n = 0
+    m = idx.modules.get(UM)
+    for fn in m.all_funcs():
+        reads = [x for x in walk_local(fn.node) if isinstance(x, ast.Attribute) and x.attr == "axialMesh" and isinstance(x.ctx, ast.Load) and norm(x).endswith(".core.p.axialMesh")]
+        if not reads:
+            continue
+        for x in reads:
+            core = norm(x)[: -len(".p.axialMesh")]
+
+            def ev(nd, core=core):
+                return ["fresh"] if isinstance(nd, ast.Call) and dotted(nd.func) == core + ".updateAxialMesh" else []
+            fl = Flow(fn.node, ev).run()
+            n += 1
+            # state at the enclosing statement of the read
+            stmt = next((s_ for s_ in walk_local(fn.node) if isinstance(s_, ast.stmt) and any(y is x for y in ast.walk(s_)) and not isinstance(s_, (ast.For, ast.While, ast.If, ast.With, ast.Try, ast.FunctionDef))), None)
+            stb = fl.state_before(stmt) if stmt is not None else None
+            if stb is None:
+                call = next((c for c in iter_calls(fn.node) if any(y is x for y in ast.walk(c))), None)
+                stb = fl.state_before(call) if call is not None else None
+            r.require(stb is not None and stb.get("fresh", (0, 0))[0] >= 1, f"{fn.qualname}:target-mesh-refreshed-before-use", fn, node=x,
+                      msg=f"`{norm(x)}` is used as the target mesh without a preceding {core}.updateAxialMesh() on every path: after block heights changed the assemblies are mapped "
+                          "onto a stale (shorter) mesh and the material above its top is lost")
+    if n < 1:
+        raise AnchorMissing("uniformMesh: use of core.p.axialMesh as the target mesh")
+
+
 def run(idx, chk):
     chk.explanation = (
         "C11: the two overlap-mapping functions are typed with role generators for overlap / destination / source heights: densities scale by "
@@ -344,3 +400,5 @@ def run(idx, chk):
                  necessary="never cells thinner than the minimum; anchors kept or a loud failure")
     chk.run_rule("R11.5", "resampleStepwise: partial-bin fractions are covered length / bin width on both sides; average is length weighted; one output per interval", lambda r: r5_resample(idx, r), floor=6,
                  necessary="height-weighted mean of the overlapped source values")
+    chk.run_rule("R11.6", "the homogenised copy has the block's current pitch; anchors pair bottom/min and top/max; a target core mesh is refreshed before use", lambda r: r6_targets_and_sizes(idx, r), floor=6,
+                 necessary="re-meshing conserves the atoms of every nuclide and keeps the outermost material boundaries")
